@@ -77,7 +77,7 @@ Definition svc_spec (c : pcase) : bool :=
      end.
 
 (* ---- C16: C-FIND end to end ------------------------------------------------------------------------ *)
-Record fcase := mkfcase {
+Record fcase_full := mkfcase {
   f_q : rq; f_matches : list (bytes * N);
   f_sent : list rsp;                                  (* what the provider handed to send *)
   f_query_seen : bool;                                (* the handler received exactly the query data set *)
@@ -94,14 +94,35 @@ Definition beq_yield (a b : list (option bytes * N)) : bool :=
 
 Definition rsp_pair (r : rsp) : bytes * N := (o_data r, match o_status r with Some s => s | None => 0 end).
 
+Inductive fcase :=
+| EndToEnd (c : fcase_full)
+| UserOnly (responses : list (bytes * N)) (yielded : list (option bytes * N)) (consumed : N).
+
 Definition find_corr (c : fcase) : bool :=
-  beq_rsps (find_scp (f_q c) (f_matches c)) (f_sent c)
-  && beq_yield (find_scu (map rsp_pair (f_sent c))) (f_yield c).
+  match c with
+  | EndToEnd c =>
+      beq_rsps (find_scp (f_q c) (f_matches c)) (f_sent c)
+      && beq_yield (find_scu (map rsp_pair (f_sent c))) (f_yield c)
+  | UserOnly rs ys n => beq_yield (find_scu rs) ys && (n =? lenN ys)
+  end.
+
+(* pend ++ [final]: everything up to and including the first response that is not pending *)
+Fixpoint upto_final (rs : list (bytes * N)) : list (bytes * N) :=
+  match rs with
+  | [] => []
+  | (d, s) :: r => if (s =? 65280) || (s =? 65281) then (d, s) :: upto_final r else [(d, s)]
+  end.
 
 Definition find_spec (c : fcase) : bool :=
-  f_query_seen c && negb (f_extra_consumed c)
-  && beq_yield (f_yield c) (map (fun m => (Some (fst m), snd m)) (f_matches c) ++ [(None, 0)])
-  && forallb (correlates_b (f_q c)) (f_sent c).
+  match c with
+  | EndToEnd c =>
+      f_query_seen c && negb (f_extra_consumed c)
+      && beq_yield (f_yield c) (map (fun m => (Some (fst m), snd m)) (f_matches c) ++ [(None, 0)])
+      && forallb (correlates_b (f_q c)) (f_sent c)
+  | UserOnly rs ys n =>
+      beq_yield ys (map (fun m => (match fst m with [] => None | d => Some d end, snd m)) (upto_final rs))
+      && (n =? lenN (upto_final rs))
+  end.
 
 (* ---- C19: C-GET user ------------------------------------------------------------------------------- *)
 Record gcase := mkgcase {
